@@ -866,7 +866,7 @@ def check_C14(cx):
 
 def check_C08(cx):
     thms = ["AL.Properties.C08." + t for t in ["internal_has_room", "internal_step_error", "external_step_error", "plain_success_iff",
-            "growth_keeps_code", "same_as_caller_buffer"]] + ["AL.Lemmas.check_frame", "AL.Lemmas.assembleAll_post", "AL.Lemmas.asm_layout"]
+            "growth_keeps_code", "same_as_caller_buffer", "internal_room_anywhere"]] + ["AL.Lemmas.check_frame", "AL.Lemmas.assembleAll_post", "AL.Lemmas.asm_layout"]
     info = stage_proofs(cx, "AL.Properties.C08", thms)
     impl = build_impl(cx)
     if not (info and impl):
@@ -2191,7 +2191,7 @@ def check_enc(cx):
 
 ENC_THEOREMS = {
     "C01": ["AL.Properties.Sweep.c01_sweep", "AL.Properties.C01.nop_table_decodes", "AL.Properties.C01.no_operand_lines", "AL.Properties.C01.letter_case_irrelevant"],
-    "C02": ["AL.Properties.Sweep.c02_sweep", "AL.Properties.Sweep.c02_sweep_mixed", "AL.Properties.C02.disp_field_reads_back", "AL.Properties.C02.decoder_reads_every_operand", "AL.Properties.C02.mov_load_every_disp", "AL.Lemmas.MemLoad.mem_bytes", "AL.Lemmas.MemLoad.memBytes_canonical", "AL.Spec.X86.leVal_assembleConst", "AL.Spec.X86.toSigned_roundtrip",
+    "C02": ["AL.Properties.Sweep.c02_sweep", "AL.Properties.Sweep.c02_sweep_mixed", "AL.Properties.C02.disp_field_reads_back", "AL.Properties.C02.decoder_reads_every_operand", "AL.Properties.C02.mov_load_every_disp", "AL.Properties.C02.mov_load_text", "AL.Lemmas.MemText.mem_line", "AL.Lemmas.MemLoad.mem_bytes", "AL.Lemmas.MemLoad.memBytes_canonical", "AL.Spec.X86.leVal_assembleConst", "AL.Spec.X86.toSigned_roundtrip",
             "AL.Properties.C11.swap_same_address", "AL.Properties.C11.nobase_scale2_same_address", "AL.Properties.C11.nobase_scale1_same_address"],
     "C03": ["AL.Properties.Sweep.c03_sweep", "AL.Properties.C03.written_number_value", "AL.Properties.C03.written_number_value_padded", "AL.Properties.C03.imm_field_reads_back", "AL.Properties.C03.imm_field_dword", "AL.Properties.C03.imm_field_qword",
             "AL.Properties.C03.mov_r64_hex", "AL.Properties.C03.mov_r64_neg_hex", "AL.Properties.C03.mov_r64_dec", "AL.Properties.C03.mov_r64_neg_dec",
